@@ -390,3 +390,7 @@ def check(cx):
     from . import c05
     cx.include(c05, {"C05.9"}, "C06.8", "shared with C05.9: the merge join steps over a NULL key on the side that carries it; otherwise the "
                "answer of an equi-join depends on whether the optimizer picked the merge join or another join method", floor=3)
+
+    # ---- C06.9 (construct shared with C05.6) ---------------------------------------------------------------------------
+    cx.include(c05, {"C05.6"}, "C06.9", "shared with C05.6: the index scan that replaces a filter uses the bound side and inclusiveness the "
+               "comparison means, so that the index plan and the scan-plus-filter plan return the same rows", floor=12)
